@@ -58,6 +58,29 @@ CHECKS.update({
    design="6 C05"),
 })
 
+CHECKS.update({
+ "C03": dict(
+   text="Lean theorems over the object-tree model (World.used = set_used_rand): the target of a call is used as random whatever its declaration (target_used); a scalar or sub-object below it is random in the call iff its parent is and it is declared random with rand_mode on (member_scalar, member_object); below a composite that is not random nothing is random (used_false, by induction over the tree); the solve writes only fields that are random in the call - the environment after read-back differs from the one before only there (writes_only_random, with C01.randomize_sound clause 3) - and the formulas depend on the environment only through the non-random fields, which enter as constants of their current value (nonrandom_as_constants). Tied per call on generated object trees and op histories (assignments, rand_mode toggles, constraint_mode toggles, calls on the root or on a sub-object): used flag of every field, rand sets, every lowered formula, values of every field before/after on success and on SolveFailure; Spec oracle: no field that is not random in the call changes.",
+   note=TB + "Not generated in this revision: free-standing vsc.randomize(...) on field lists, mutable rangelist objects edited between calls, non-random lists (C04 not claimed). rand_mode toggles on scalars only.",
+   technique="Lean 4 proof (structural induction over object trees) + trace-level differential correspondence on generated histories",
+   design="6 C03"),
+ "C07": dict(
+   text="Lean theorems over the per-instance flag model: a toggle sets the flag of its (instance, block) pair (toggle_sets), leaves every other pair - other instances of the class, sub-objects, instances created later - unchanged (toggle_isolated), and after any toggle history the flag is the value of the last toggle on that pair, on by default (flag_is_last, induction over the history); a block enters a call iff its flag is on and its instance is random in the call (active_iff); of several definitions of a block name along the class chain the last (most-derived) one is kept (mostDerived_is_last). Tied on generated hierarchies with overridden block names and several instances per class: enabled flag of every block of every instance after every op, the formulas entering each call, rand sets, values.",
+   note=TB + "Instances held in lists are not generated (C04 not claimed). The disabled-block skip in VariableBoundVisitor is covered only through its effect on swizzle candidates, which C07 does not compare.",
+   technique="Lean 4 proof (induction over toggle histories) + trace-level differential correspondence on generated hierarchies",
+   design="6 C07"),
+ "C08": dict(
+   text="Lean theorems: every scalar instance of the tree has exactly one used-as-random flag - structurally identical sub-objects never share one (one_flag_per_scalar, from used_scalars: the flag list enumerates the tree's scalars in visit order); a sub-object's own blocks are enforced exactly when the block is enabled on that instance and the sub-object is random in the call (sub_blocks_iff_rand); below a sub-object that is not random in the call every field is a constant of the call (nonrandom_subtree_constant). Member-path resolution (field_id_m chains, to_expr) is executable model + correspondence: solver variables are named by full member path in every compared formula, so a reference that resolved to the wrong sibling is a textual difference; instantiation order, rand-set membership by path, used flags and active blocks are compared per call.",
+   note=TB + "Path resolution injectivity is not a theorem (the instantiation code lives in the driver); it is tied by the per-formula comparison. Lists of objects / foreach over objects are not generated (C04 not claimed).",
+   technique="Lean 4 proof (structural induction over object trees) + trace-level differential correspondence on generated object trees",
+   design="6 C08"),
+ "C17": dict(
+   text="Lean theorems over the callback model (pre-order over the composites that are random in the call): a callback fires on an object iff the object is random in the call (callback_iff); with unique object ids no object's callback fires twice (callbacks_once, via used_objects: the flag list enumerates the objects in pre-order); the top object of the call always gets its callbacks (callback_root); nothing fires for a non-random sub-object or anything below it (no_callback_below_nonrandom). Tied per call on generated trees whose classes define pre_randomize/post_randomize: the exact sequences of pre and post callbacks are compared with the model's; Spec oracle on the implementation's log (at most once each).",
+   note=TB + "PARTIAL: 'pre_randomize runs before solving, so values it assigns to non-random fields are the ones the solver sees' and 'post_randomize runs after every field holds its final value' are not exercised by the generated callbacks in this revision (they only log); lists of objects are not generated.",
+   technique="Lean 4 proof + trace-level differential correspondence on generated object trees",
+   design="6 C17"),
+})
+
 def main():
     checks = []
     for pid in ALL:
